@@ -13,6 +13,7 @@ import (
 	"sort"
 	"strings"
 	"sync"
+	"sync/atomic"
 	"testing/synctest"
 	"time"
 
@@ -139,6 +140,7 @@ type h2World struct {
 	plannedCid int
 	relayOf  map[string]string
 	onCid    func(idx int, key string, bound bool)
+	permDelay atomic.Int64 // nanoseconds every PermissionHandler call takes
 }
 
 var h2Users = map[string]string{"alice": "pw-alice", "bob": "pw-bob"}
@@ -277,6 +279,9 @@ func newH2WorldWith(vt *vhT, cfg ServerConfig, lis []*h2Listener, withAuth bool,
 		lid := i
 		l := l
 		ph := func(client net.Addr, peerIP net.IP) bool {
+			if d := time.Duration(w.permDelay.Load()); d > 0 {
+				time.Sleep(d) // a permission handler that takes its time (a lookup in a remote policy store, say)
+			}
 			for _, v := range l.vetoed {
 				if v.Equal(peerIP) {
 					return false
